@@ -868,6 +868,10 @@ void GridFourier::mergeRefinement(){
     int num_all_points = getNumLoaded() + getNumNeeded();
     values.setValues(std::vector<double>(Utils::size_mult(num_outputs, num_all_points), 0.0));
     acceptUpdatedTensors();
+    // all values are zero, so are the coefficients; keep their size and the cached powers in sync with the merged points
+    clearGpuCoefficients();
+    fourier_coefs = Data2D<double>(num_outputs, 2 * points.getNumIndexes());
+    max_power = MultiIndexManipulations::getMaxIndexes(points);
 }
 
 void GridFourier::beginConstruction(){
